@@ -4,23 +4,23 @@ import json, os
 V = os.path.dirname(os.path.dirname(os.path.abspath(__file__)))
 
 CLAIMS = {
- 'C15': dict(cat='other', tech='static analysis: MIR float-taint dataflow + path-sensitive symbolic return summaries',
-   text='Static analysis (for all inputs, on the real MIR) of two necessary conditions of C15: no exact Euclidean operation has a float on its data/control path (so div_round and quadratic-integer division are exact at any magnitude), and every return path of gcd/gcdx/lcm (generic + overrides) yields the normalised associate with consistently rescaled Bezout coefficients. The arithmetic identities (a = q*b + r, s*a + t*b = d) are NOT decided.',
-   ref='DESIGN.md §3 E2, E3; §4 C15',
-   note='Trusted: rustc MIR of the current tree; CHA over-approximation for unresolved trait calls; num_integer gcd results non-negative; normalizing_unit tables correct.'),
+ 'C15': dict(cat='other', tech='static analysis: MIR float-taint dataflow, path-sensitive symbolic return summaries, polynomial-identity and sign-table (Fourier-Motzkin) checks on formulas read from MIR',
+   text='Static analysis (for all inputs, on the real MIR) of two necessary conditions of C15: no exact Euclidean operation has a float on its data/control path (so div_round and quadratic-integer division are exact at any magnitude), and every return path of gcd/gcdx/lcm (generic + overrides) yields the normalised associate with consistently rescaled Bezout coefficients. Additionally: the nearest-integer quotient is overflow-free for every machine width (linear model, Fourier-Motzkin); the QuadInt inverse is norm^-1 * conj, Gauss / Eisenstein division rounds the exact numerator self*conj(rhs) by norm(rhs) after a checked linear change of basis, rem = a - b*(a/b), and the quadrant / sextant normalising-unit tables provably send every z into one fundamental sector (so normalisation is idempotent and constant on associates). The Bezout values s*a + t*b = d and the remainder-norm bound are NOT decided.',
+   ref='DESIGN.md §3 E2, E3, E15, E20; §4 C15',
+   note='Trusted: rustc MIR of the current tree; CHA over-approximation for unresolved trait calls; num_integer gcd results non-negative; normalizing_unit of the integer / polynomial types (the QuadInt tables are checked, E20.Q6).'),
  'C17': dict(cat='proof', tech='static analysis: abstract interpretation (linear inequalities + bit-width domain, Fourier-Motzkin) over MIR',
    text='Proof, for all lengths 0..64 and all arguments symbolically, of a stated obligation set over the real MIR of every body in misc::bitseq: every compiler-inserted overflow/shift check and pow call is discharged (so the 64-bit boundary and over-capacity operations are rejected by explicit asserts and never wrap), len <= 64 and width(val) <= len hold at every return, fields are private and every literal establishes the invariant, and Ord is the lexicographic chain (len, weight, val) covering all Eq fields. Functional equivalence of each operation with the list-of-booleans operation is NOT decided.',
    ref='DESIGN.md §3 E4; §4 C17',
    note='Trusted: MIR semantics of checked arithmetic; in-house Fourier-Motzkin and width algebra; explicit assert!s are the documented rejections.'),
- 'C14': dict(cat='other', tech='static analysis: path-sensitive symbolic summaries (canonical-form typestate), float-taint dataflow, operator-variant delegation check over MIR',
-   text='Static analysis, for all operand values and all operation histories (induction over the API), of necessary conditions of C14: Ratio is in lowest terms with normalised denominator on every return path of every function that can touch its fields (reduce() itself checked path by path; two reviewed shortcut shapes; raw construction only at reviewed sites; fields private), FF<p> representatives come only from rem_euclid/0/1, no float is on any data/control path of ring operations, Eq or Ord of the scalar types (order consistent with equality at any magnitude), and every by-value/by-ref/assigning operator variant is a pure in-order delegation to one hand-written body. The ring axioms as arithmetic and the QuadInt product formula are NOT decided.',
-   ref='DESIGN.md §3 E1, E2; §4 C14',
+ 'C14': dict(cat='other', tech='static analysis: path-sensitive symbolic summaries (canonical-form typestate), float-taint dataflow, operator-variant delegation check, polynomial identities of the QuadInt formulas over MIR',
+   text='Static analysis, for all operand values and all operation histories (induction over the API), of necessary conditions of C14: Ratio is in lowest terms with normalised denominator on every return path of every function that can touch its fields (reduce() itself checked path by path; two reviewed shortcut shapes; raw construction only at reviewed sites; fields private), FF<p> representatives come only from rem_euclid/0/1, no float is on any data/control path of ring operations, Eq or Ord of the scalar types (order consistent with equality at any magnitude), and every by-value/by-ref/assigning operator variant is a pure in-order delegation to one hand-written body. The QuadInt product / conjugate / norm formulas are verified as polynomial identities of Z[w] symbolically in D (per congruence class, per zero-test shortcut). The ring axioms of the underlying integer types (num-traits, num-bigint) and overflow are NOT decided.',
+   ref='DESIGN.md §3 E1, E2, OPV, E20; §4 C14',
    note='Trusted: rustc MIR; operator-assign trait contract; theorem that a cross-cancelled product of reduced fractions is reduced; EucRing::gcd normalised (C15).'),
- 'C16': dict(cat='other', tech='static analysis: typestate dataflow (dirty => normalise before escape) over MIR CFGs',
-   text='Static must-analysis over the MIR (all paths incl. loops) of the representation invariants that polynomial equality relies on: Lc never escapes with a possibly-zero coefficient stored and MultiDeg never with a zero exponent - every dirtying event (field write, &mut into the map given to a non-preserving method, documented-dirty add_pair*) reaches clean()/reduce() before the value is returned or moved; raw construction only at reviewed, mechanically justified sites; fields private; callers of the dirty API workspace-wide are checked. By induction over the API equality, is_zero, term count are those of the mathematical object after any operation sequence. Ring axioms, evaluation homomorphism and order compatibility are NOT decided.',
+ 'C16': dict(cat='other', tech='static analysis: typestate dataflow (dirty => normalise before escape) over MIR CFGs, lex / grlex order shape (increasing variable index over both supports), universal shortcut predicates',
+   text='Static must-analysis over the MIR (all paths incl. loops) of the representation invariants that polynomial equality relies on: Lc never escapes with a possibly-zero coefficient stored and MultiDeg never with a zero exponent - every dirtying event (field write, &mut into the map given to a non-preserving method, documented-dirty add_pair*) reaches clean()/reduce() before the value is returned or moved; raw construction only at reviewed, mechanically justified sites; fields private; callers of the dirty API workspace-wide are checked. By induction over the API equality, is_zero, term count are those of the mathematical object after any operation sequence. Ring axioms, evaluation homomorphism and order compatibility are NOT decided. Additionally: every cmp_lex compares the exponents in increasing variable index, self against other, over an index source that is increasing and covers both supports (dense range; a concatenation of the two key lists is rejected).',
    ref='DESIGN.md §3 E1; §4 C16',
    note='Trusted: container-method preservation table; received values clean by induction; unwinding paths not considered.'),
- 'C01': dict(cat='other', tech='static analysis: normal-form typestate, symmetric-update check, affine formula extraction, relation tables read from MIR decision trees and verified by exact polynomial arithmetic, guard live-range analysis',
+ 'C01': dict(cat='other', tech='static analysis: normal-form typestate, symmetric-update check, affine formula extraction, relation tables read from MIR decision trees and verified by exact polynomial arithmetic, guard live-range analysis, shortcut justification under ring guards',
    text='Static analysis of structural necessary conditions of C01 only - the isomorphism with the cube-of-resolutions homology is NOT decided. Decided for every path, every (h,t) and every schedule: Tng/Cob keep their sorted normal form (they are hash-map keys of the differential), the doubly stored adjacency is updated symmetrically, the two genus recomputations and the Euler/degree formulas are the published affine forms, the complex and the transported cycles use the same elimination formula d - c a^-1 b in that operand order, the Bar-Natan relation tables (neck cutting, XY = t, X^2 = hX + t, Y^2 = -hY + t, closed evaluations, zero/unit predicates, delooping dual basis) are identities of Z[h,t][X]/(X^2-hX-t), and the write guard of connect_edges is neither re-acquired nor held across a rayon entry.',
    ref='DESIGN.md §3 E1, E13, E8, E9, E5; §4 C01',
    note='Trusted: Vec order-preserving method table; Frobenius algebra and grading as stated in the property anchor; finite grid justified by the thresholds (0,1,2, parity) the code compares against.'),
@@ -28,12 +28,12 @@ CLAIMS = {
    text='Static sibling-agreement check of the two independent encodings of the grading conventions on which chi_q(Kh) = Jones depends: the global shift (-n_neg, n_pos - 2 n_neg [+1 reduced]) versus the Jones prefactor (-1)^{n_neg} q^{n_pos - 2 n_neg}, and the generator bidegree (h0 + |s|, q0 + sum deg + #circles + |s| with deg 1 = 0, deg X = -2) versus the state-sum weight (-q)^{|s|} (q + q^-1)^{#circles}. A disagreement breaks the identity on every diagram with a crossing. The identity itself, isotopy invariance and q -> q^-1 under mirroring are NOT decided.',
    ref='DESIGN.md §3 E8; §4 C04',
    note='Trusted: atoms identified by their accessor (signed_crossing_nums, weight, label length).'),
- 'C05': dict(cat='other', tech='static analysis: rewrite rules read from the MIR decision tree of part_eval, verified by exact polynomial arithmetic on a finite grid (induction step)',
+ 'C05': dict(cat='other', tech='static analysis: rewrite rules read from the MIR decision tree of part_eval, verified by exact polynomial arithmetic on a finite grid (induction step); shortcut justification: every return path of the part_eval wrappers that bypasses the table is zero on all grid points it applies to under the ring guards it tests',
    text='Static verification that every rewriting step applied to cobordisms (the only place where ring parameters enter the differential) is an identity of Z[h,t][X]/(X^2-hX-t) and homogeneous for deg X = Y = handle = -2, deg h = -2, deg t = -4, that no case falls through, and that cobordism degree is chi - e/2 - 2 dots: necessary for d.d = 0, for degree-0 homogeneity over any commutative ring (polynomial parameters included) and for compatibility with specialisation. d.d = 0 itself, the homological degree and equality of homologies after evaluation are NOT decided.',
    ref='DESIGN.md §3 E9, E8; §4 C05',
    note='Trusted: the algebra and grading named in the property; the grid covers every threshold the code compares against.'),
- 'C06': dict(cat='other', tech='static analysis: affine formula agreement, must-precede / who-may-call over MIR paths and call graph, delooping table check',
-   text='Static analysis of structural necessary conditions: ss = 2d + w - r + 1 is the same affine form over the same atoms at all five sites; canonical cycles are transported before the complex is rewritten at every deloop and elimination and the rewriting functions are reachable only through those wrappers; cycles are delooped with the same death dots and eliminated with the same formula as the complex. Non-torsion of the classes, rank 2^components, diagram independence, mirror sign and the crossing-change inequality are NOT decided.',
+ 'C06': dict(cat='other', tech='static analysis: affine formula agreement, must-precede / who-may-call over MIR paths and call graph, delooping table check, relation tables and shortcut justification by exact arithmetic in the Frobenius algebra',
+   text='Static analysis of structural necessary conditions: ss = 2d + w - r + 1 is the same affine form over the same atoms at all five sites; canonical cycles are transported before the complex is rewritten at every deloop and elimination and the rewriting functions are reachable only through those wrappers; cycles are delooped with the same death dots and eliminated with the same formula as the complex. Non-torsion of the classes, rank 2^components, diagram independence, mirror sign and the crossing-change inequality are NOT decided. Additionally the relation table, the zero / unit / should-evaluate predicates and every shortcut of part_eval are identities of the Frobenius algebra for every (h, t), in particular t != 0.',
    ref='DESIGN.md §3 E8, E12, E9; §4 C06',
    note='Trusted: published ss formula; call graph over-approximation.'),
  'C13': dict(cat='other', tech='static analysis: sibling agreement of index-offset tables and fold orders read from MIR; float taint',
@@ -48,16 +48,16 @@ CLAIMS = {
    text='Static analysis that holds for EVERY thread interleaving because it is a property of the code: the shared pivot table is written only inside the critical section that validated the choice (write() -> update_diff(&*guard) -> no-retry edge of should_retry() -> set(), one guard, never dropped in between; retry edge re-acquires and refreshes the snapshot first), no lock/cell is re-acquired while one of its guards can be alive, and no rayon entry is reachable while a thread-local RefCell borrow or the write guard is alive (work stealing would otherwise double-borrow or self-deadlock on some schedules). That the committed pivot set is acyclic for all inputs (completeness of the conflict test) is NOT decided, nor are pivot-condition values.',
    ref='DESIGN.md §3 E5; §4 C11',
    note='Trusted: MIR drop elaboration; over-approximating call graph (CHA, closures invocable where passed); only rayon spawns parallel work.'),
- 'C12': dict(cat='other', tech='static analysis: guard live-range dataflow + call-graph reachability to rayon over MIR',
-   text='Static analysis of the concurrency structure of the sparse kernels, valid for one thread and many alike: the thread-local scratch vector of the triangular solver is never borrowed across a call that can reach rayon, and the union-find mutex of the block splitter is never re-locked while a guard on it is alive. The numerical clauses (A*X = Y, S = D - C A^-1 B, transfer-map identities, block decomposition, scratch returning to zero) are NOT decided.',
+ 'C12': dict(cat='other', tech='static analysis: guard live-range dataflow + call-graph reachability to rayon over MIR, stale-read (lost-update) flow between critical sections, non-commutative block algebra of the Schur reduction',
+   text='Static analysis of the concurrency structure of the sparse kernels, valid for one thread and many alike: the thread-local scratch vector of the triangular solver is never borrowed across a call that can reach rayon, and the union-find mutex of the block splitter is never re-locked while a guard on it is alive. The numerical clauses (A*X = Y, S = D - C A^-1 B, transfer-map identities, block decomposition, scratch returning to zero) are NOT decided. Additionally: no call made through a second acquisition of a lock receives a value read under an earlier, released guard of the same lock (lost update).',
    ref='DESIGN.md §3 E5; §4 C12',
    note='Trusted: as C11.'),
- 'C09': dict(cat='other', tech='static analysis: path-sensitive symbolic summaries of the mirroring wrappers, who-may-write and ordering checks, float taint over MIR',
-   text='Static analysis of necessary conditions of D = P*A*Q, P*P^-1 = I, Q*Q^-1 = I for every matrix and every subset of the transform flags: every elementary row/column operation on the working matrix is mirrored into the requested companions with the same resp. inverse operation (indices, inverted/negated scalar, adjugate 2x2 block), only the wrappers mutate the working matrix, the phases run in the required order, every 2x2 block passed in is a Bezout block of determinant 1, and the exact divisions involve no float at any magnitude. That D is diagonal with a divisibility chain, its agreement with minors, and termination are NOT decided.',
-   ref='DESIGN.md §3 E6, E2; §4 C09',
+ 'C09': dict(cat='other', tech='static analysis: path-sensitive symbolic summaries of the mirroring wrappers, who-may-write and ordering checks, scan-to-fixpoint exit condition on the CFG, float taint over MIR',
+   text='Static analysis of necessary conditions of D = P*A*Q, P*P^-1 = I, Q*Q^-1 = I for every matrix and every subset of the transform flags: every elementary row/column operation on the working matrix is mirrored into the requested companions with the same resp. inverse operation (indices, inverted/negated scalar, adjugate 2x2 block), only the wrappers mutate the working matrix, the phases run in the required order, every 2x2 block passed in is a Bezout block of determinant 1, and the exact divisions involve no float at any magnitude. The divisibility chain is decided as the exit condition of the normalising scan: a step answers true only after d[i] | d[i+1] was tested on an unmodified diagonal, a false answer restarts the scan at 0, the scan covers the whole non-zero prefix. That D is diagonal, its agreement with minors, and termination are NOT decided.',
+   ref='DESIGN.md §3 E6, E2, E21; §4 C09',
    note='Trusted: Mat elementary operations do what their names say; gcdx returns Bezout coefficients.'),
- 'C10': dict(cat='other', tech='static analysis: path-sensitive symbolic summaries of the mirroring wrappers, who-may-write, float taint over MIR',
-   text='Static analysis of necessary conditions of H = P*A, P*P^-1 = I (and B = P*A for LLL) for every input: swap / unit scaling / row addition on the basis and the HNF row reversal are mirrored into P and, inverted, into P^-1 on every path where they are requested; nothing else mutates the basis; the nearest-integer quotient used for size reduction is float-free (exact for hundreds of digits). Echelon form, reducedness, the Lovasz condition and termination are NOT decided.',
+ 'C10': dict(cat='other', tech='static analysis: path-sensitive symbolic summaries of the mirroring wrappers, who-may-write, float taint over MIR, dimensional analysis of the update formulas, data-dependence order of the size-reduction loop',
+   text='Static analysis of necessary conditions of H = P*A, P*P^-1 = I (and B = P*A for LLL) for every input: swap / unit scaling / row addition on the basis and the HNF row reversal are mirrored into P and, inverted, into P^-1 on every path where they are requested; nothing else mutates the basis; the nearest-integer quotient used for size reduction is float-free (exact for hundreds of digits). Echelon form, reducedness, the Lovasz condition and termination are NOT decided. Additionally: every exact update formula is homogeneous under scaling of the basis (dimensional analysis), and size reduction of row k runs against the rows in descending order, which the write set of add_row_to (columns <= i of row k), read from the code, forces.',
    ref='DESIGN.md §3 E6, E2; §4 C10',
    note='Trusted: as C09.'),
  'C20': dict(cat='other', tech='static analysis: call-graph reachability (who-may-call, no-stdout-before-error), path summaries of main/guard, path-sensitive dispatch-table extraction over MIR',
@@ -76,11 +76,17 @@ CLAIMS = {
    text='Static analysis of how the homology record is assembled from the two Smith normal forms, valid for every pair (d_in, d_out), ring and flag: by range algebra on the row/column ranges taken from each transform and its inverse, the chain->homology map P and the homology->chain map Q satisfy P*Q = 1 (coordinates of the generators are the standard basis); d_out is restricted with exactly the columns Q uses; every unwrapped transform was requested under the same condition; rank = n - rank(d_in) - rank(d_out), torsion = non-unit factors of d_in; no float. That generators are cycles, boundaries map to zero, and SNF itself (C09) are NOT decided.',
    ref='DESIGN.md §3 E19; §4 C07',
    note='Trusted: SNF transforms mutually inverse (C09); divisibility chain orders unit factors first; submat/stack/concat semantics.'),
+ 'C02': dict(cat='other', tech='static analysis: path summaries of the crossing-choice loop (every element consumed exactly once, who-may-remove), literal convention tables folded over finite domains, affine formula extraction from MIR',
+   text='Invariance itself (isomorphic tables for two diagrams of one link) is NOT decided - it quantifies over pairs of diagrams. Decided, for every diagram, is one structural necessary condition per mechanism the property is anchored in: the crossing-choice heuristic decides only the order (choose_next answers None only when the selector over all remaining crossings found nothing, hands out exactly the entry it removes, process_all appends every crossing handed out, crossings are removed nowhere else); mirror exchanges X/Xm keeping edges, commutes with resolution by flipping the bit and makes the sign table odd; the orientation sweep shares one visited set; the braid-closure code of a generator is counter-clockwise from a top under-end and carries the generator sign; the global shift is (-n_neg, n_pos - 2 n_neg [+1 reduced]) and agrees with the Jones normalisation.',
+   ref='DESIGN.md §3 E22, E7, E8.F2; §4 C02',
+   note='Trusted: std contracts of Iterator::max_by_key / Vec::remove; PD convention. Thin claim: necessary conditions only.'),
+ 'C03': dict(cat='other', tech='static analysis: path summaries with loop havoc of the generator-filing loop (each element filed exactly once under its own key), CFG reachability on the invariant-factor scan, expanded dispatch table',
+   text='The universal-coefficient relations themselves (rank over Q = free rank over Z; F_p dimension = free rank + p-torsion counts) are arithmetic between run-time values and are NOT decided. Decided, for every link and ring, is one structural necessary condition per mechanism the property is anchored in: both routes to a bigraded table partition the generators by (h, q) - collect_gen_info visits k = 0 .. rank + #tors once, files generator k under the single key (i, q_deg(gen k)), free iff k < rank, else with order tors[k - rank], recording k either way; the piece (i, j) is assembled from the entry of the same key in (rank, tors, indices) order; the support is min..max of the keys; gen_grid puts x into (i, j) iff x generates C_i and q_deg(x) = j; the Smith normal form leaves its normalising scan only after a full pass of successful d[i] | d[i+1] tests (torsion is reported as invariant factors); the CLI runs the documented ring type for each -c value.',
+   ref='DESIGN.md §3 E23, E21, E10.R6; §4 C03',
+   note='Trusted: HashMap entry semantics; q-homogeneity of generators. Thin claim: necessary conditions only.'),
 }
 
 NA = {
- 'C02': 'invariance under Reidemeister/braid moves quantifies over pairs of diagrams and compares computed homology tables; no clause is a shape property of the source beyond the crossing tables decided under C18',
- 'C03': 'universal-coefficient relations are arithmetic between ranks/torsion computed at run time; no static argument in reach bounds them',
 }
 PENDING = 'not claimed at this commit: its static check (DESIGN.md §4) is still being built'
 
